@@ -82,9 +82,23 @@ R_SEQ = [len(TEXTS), N_OPS, N_OPS]
 N_SEQ = prod(R_SEQ)
 
 
+R_SEQ3 = [len(TEXTS), N_OPS, N_OPS, N_OPS]
+N_SEQ3 = prod(R_SEQ3)
+
+
+def body_seq3(sel: int) -> bool:
+    """three queries in a row (thorough tier)"""
+    b, i, j, k = digits(sel, R_SEQ3)
+    return _seq(b, (i, j, k))
+
+
 def body_seq(sel: int) -> bool:
     """two queries in a row on one instance, each returned value modified in place: every later answer equals a fresh instance's"""
     b, i, j = digits(sel, R_SEQ)
+    return _seq(b, (i, j))
+
+
+def _seq(b, idx) -> bool:
     text = TEXTS[b]
     fresh = snapshot(parse(text))
     p = parse(text)
@@ -92,7 +106,7 @@ def body_seq(sel: int) -> bool:
     names = list(ops)
     assert len(names) == N_OPS, len(names)
     done = []
-    for k in (i, j):
+    for k in idx:
         try:
             r = ops[names[k]]()
         except Exception as e:
